@@ -893,7 +893,7 @@ func (c *ffCase) opForget() {
 	}
 	var kn *kNode
 	var count uint64
-	if len(multi) > 0 && rapid.Bool().Draw(c.rt, "partial") {
+	if len(multi) > 0 && rapid.IntRange(0, 9).Draw(c.rt, "partial") < 7 {
 		kn = multi[rapid.IntRange(0, len(multi)-1).Draw(c.rt, "multi_node")]
 		count = uint64(rapid.IntRange(1, int(kn.nlookup)-1).Draw(c.rt, "partial_count"))
 	} else {
